@@ -14,9 +14,11 @@
    filtered nodes cleared, nothing below touched), established by encap for the committer and
    by update_secrets for a joiner; every non-filtered node of the committer's path and its
    leaf carry the fresh keys.
-   PARTIAL: that a FILTERED node of the committer's path is blank (so that every non-blank
-   path node has a fresh key) needs the invariant 'a non-blank parent has non-blank leaves on
-   both sides', which is not proved here; the check validates it on the implementation.
+   That a FILTERED node of the committer's path is blank (so that every non-blank path node
+   has a fresh key) is the invariant WF5 'a non-blank parent has members on both sides',
+   proved for every commit on the tree model (Props/C08.v: C08_every_parent_has_members_on_both_sides,
+   C08_filtered_path_node_is_blank); the key assignment ks of this file abstracts that tree
+   (ks x = None iff the node is blank), which the check validates on the implementation.
    Statements only. *)
 From Coq Require Import NArith List.
 From MlsV Require Import Res TreeMathGen TreeMathProofs Tree TreeProofs Priv PrivProofs.
